@@ -394,6 +394,101 @@ func Generate(repoDir, outDir, shimDir string) (overlayPath string, st Stats, er
 	}
 	sort.Slice(pkgs, func(i, j int) bool { return pkgs[i].PkgPath < pkgs[j].PkgPath })
 
+	// pass 0: struct fields handed to sync/atomic functions by address; package-level
+	// variables that are mutated through a pointer-receiver method or whose
+	// address is taken outside init (they are reset between executions unless
+	// init assigns them)
+	atomicStructs = map[types.Object]bool{}
+	atomicFields = map[types.Object]bool{}
+	mutableVars := map[*types.Var]bool{}
+	initAssigned := map[*types.Var]bool{}
+	for _, p := range pkgs {
+		info := p.TypesInfo
+		for _, f := range p.Syntax {
+			inits := initRanges(f)
+			rootVar := func(e ast.Expr) *types.Var {
+				for {
+					switch x := e.(type) {
+					case *ast.ParenExpr:
+						e = x.X
+						continue
+					case *ast.SelectorExpr:
+						if sel := info.Selections[x]; sel != nil && sel.Kind() == types.FieldVal && !sel.Indirect() {
+							e = x.X
+							continue
+						}
+					case *ast.IndexExpr:
+						if tv, ok := info.Types[x.X]; ok {
+							if _, isArr := tv.Type.Underlying().(*types.Array); isArr {
+								e = x.X
+								continue
+							}
+						}
+					case *ast.Ident:
+						if v, ok := info.Uses[x].(*types.Var); ok && !v.IsField() && v.Pkg() != nil && v.Parent() == v.Pkg().Scope() {
+							return v
+						}
+					}
+					return nil
+				}
+			}
+			ast.Inspect(f, func(m ast.Node) bool {
+				switch x := m.(type) {
+				case *ast.CallExpr:
+					if sel, ok := x.Fun.(*ast.SelectorExpr); ok {
+						if id, ok := sel.X.(*ast.Ident); ok {
+							if pn, ok := info.Uses[id].(*types.PkgName); ok && pn.Imported().Path() == "sync/atomic" {
+								for _, a := range x.Args {
+									if u, ok := a.(*ast.UnaryExpr); ok && u.Op == token.AND {
+										if fs, ok := u.X.(*ast.SelectorExpr); ok {
+											if s := info.Selections[fs]; s != nil && s.Kind() == types.FieldVal {
+												recv := s.Recv()
+												if pt, ok := recv.(*types.Pointer); ok {
+													recv = pt.Elem()
+												}
+												if n, ok := recv.(*types.Named); ok {
+													atomicStructs[n.Obj()] = true
+													atomicFields[s.Obj()] = true
+												}
+											}
+										}
+									}
+								}
+							}
+						}
+						// method with pointer receiver called on (part of) a package-level variable
+						if s := info.Selections[sel]; s != nil && s.Kind() == types.MethodVal {
+							if fn, ok := s.Obj().(*types.Func); ok {
+								if sig, ok := fn.Type().(*types.Signature); ok && sig.Recv() != nil {
+									if _, ptr := sig.Recv().Type().(*types.Pointer); ptr {
+										if v := rootVar(sel.X); v != nil && !inRanges(x.Pos(), inits) {
+											mutableVars[v] = true
+										}
+									}
+								}
+							}
+						}
+					}
+				case *ast.UnaryExpr:
+					if x.Op == token.AND {
+						if v := rootVar(x.X); v != nil && !inRanges(x.Pos(), inits) {
+							mutableVars[v] = true
+						}
+					}
+				case *ast.AssignStmt:
+					if inRanges(x.Pos(), inits) {
+						for _, l := range x.Lhs {
+							if v := rootVar(l); v != nil {
+								initAssigned[v] = true
+							}
+						}
+					}
+				}
+				return true
+			})
+		}
+	}
+
 	// pass 1: which package-level variables are written outside init, which
 	// locals are captured by a function literal and written after their definition
 	globals := map[*types.Var]bool{}
@@ -622,7 +717,7 @@ func Generate(repoDir, outDir, shimDir string) (overlayPath string, st Stats, er
 			if !ok {
 				continue
 			}
-			if globals[v] || syncVarsUsed[v] {
+			if globals[v] || syncVarsUsed[v] || (mutableVars[v] && !initAssigned[v] && instrumentedPkg(p.PkgPath) && !isFuncOrIface(v.Type())) {
 				initExpr := ""
 				for _, f := range p.Syntax {
 					for _, d := range f.Decls {
@@ -762,6 +857,15 @@ func Generate(repoDir, outDir, shimDir string) (overlayPath string, st Stats, er
 	return overlayPath, st, nil
 }
 
+// atomicStructs: struct types (by type name object) one of whose fields is
+// passed by address to a sync/atomic function somewhere in the instrumented
+// packages (`atomic.LoadUint32(&t.state)`): they carry a synchronisation object
+// just as much as a struct with a sync.Mutex field does.
+var atomicStructs = map[types.Object]bool{}
+
+// atomicFields: the fields themselves (accessed through sync/atomic, not hooked as plain memory).
+var atomicFields = map[types.Object]bool{}
+
 // containsSync reports whether t is, or is a struct/array containing, a sync or
 // sync/atomic object: the usual shape of shared state ("a lock and what it
 // guards").
@@ -772,6 +876,9 @@ func containsSyncDepth(t types.Type, depth int) bool {
 		return false
 	}
 	if isSyncType(t) {
+		return true
+	}
+	if n, ok := t.(*types.Named); ok && atomicStructs[n.Obj()] {
 		return true
 	}
 	switch u := t.Underlying().(type) {
@@ -810,11 +917,19 @@ func (rw *rewriter) guardedField(e ast.Expr) bool {
 	if _, isStruct := n.Underlying().(*types.Struct); !isStruct || !containsSync(n) {
 		return false
 	}
-	if containsSync(s.Obj().Type()) {
+	if containsSync(s.Obj().Type()) || atomicFields[s.Obj()] {
 		return false // the sync object itself
 	}
 	tv, ok := rw.pkg.TypesInfo.Types[sel]
 	return ok && tv.Addressable()
+}
+
+func isFuncOrIface(t types.Type) bool {
+	switch t.Underlying().(type) {
+	case *types.Signature, *types.Interface:
+		return true
+	}
+	return false
 }
 
 func instrumentedPkg(path string) bool {
